@@ -35,7 +35,9 @@ CONSTANTS
   MetaFileAllowed, \* also explore a pure-metadata file (loc = 4)
   EnableKv, EnableAppend, EnableFail,   \* which operations a history may contain
   TruncateAfterKv, TruncateAfterAppend, RestoreOnFailure,
-  RestoreTruncates   \* the restored footer is followed by a truncate (FALSE: a model mutant)
+  RestoreTruncates,  \* the restored footer is followed by a truncate (FALSE: a model mutant)
+  FailKinds          \* why a column write may raise: "encode" (object that cannot be encoded), "codec" (unknown codec),
+                     \* "null" (missing value in a column the FILE declares non-nullable)
 
 Absent == -1                       \* key not present
 None   == -2                       \* update value meaning "remove"
@@ -328,7 +330,7 @@ DoKvBegin        == EnableKv /\ \E u \in Updates : \E ord \in 0..1 :
                        /\ NonTrivialUpd(u) /\ (ord = 1 => Cardinality(Mentioned(u)) >= 2) /\ KvBegin(u, ord)
 DoKvWriteFooter  == pc = "kv_write" /\ KvWriteFooter(CSize(KvNewContent))
 DoAppBegin       == EnableAppend /\ \E k \in 0..MaxNewRgs : \E fg \in 0..k : \E fc \in 1..NCols :
-                       \E why \in {"none", "encode", "codec"} :
+                       \E why \in {"none"} \cup FailKinds :
                        /\ (fg = 0 => fc = 1) /\ (fg # 0 => EnableFail) /\ (fg = 0 <=> why = "none")
                        /\ (why = "codec" => fg = 1)      \* an unknown codec is met in the first row group
                        /\ \E big \in BOOLEAN : (big => fg # 0) /\ AppBegin(k, fg, fc, why, big)
